@@ -408,12 +408,17 @@ func (c *Client) Close() error {
 
 	// block write, close connection
 	select {
-	case conn = <-c.writeSem:
-		switch conn {
+	case writeConn := <-c.writeSem:
+		switch writeConn {
 		case connPending, connDown:
-			return nil // already offline
+			// A failed write leaves connPending with the connection
+			// still open for the read routine to clean up.
+			if conn != nil {
+				conn.Close() // may be closed already
+			}
+			return nil
 		}
-		return conn.Close()
+		return writeConn.Close()
 	default: // no wait for write
 		var err error
 		if conn != nil {
@@ -460,11 +465,17 @@ func (c *Client) Disconnect(quit <-chan struct{}) error {
 		<-c.writeSem // won't block for long now
 		return fmt.Errorf("%w; DISCONNECT not send", ErrCanceled)
 
-	case conn = <-c.writeSem:
-		switch conn {
+	case writeConn := <-c.writeSem:
+		switch writeConn {
 		case connPending, connDown:
+			// A failed write leaves connPending with the connection
+			// still open for the read routine to clean up.
+			if conn != nil {
+				conn.Close() // may be closed already
+			}
 			return fmt.Errorf("%w; DISCONNECT not send", ErrDown)
 		}
+		conn = writeConn
 
 		// “After sending a DISCONNECT Packet the Client MUST NOT send
 		// any more Control Packets on that Network Connection.”
